@@ -46,11 +46,22 @@ func (c15) Run(t *tape.Tape, tier Tier) *Result {
 	spec := g.Tree()
 	sim := world.NewSim(t)
 	nproc := 2 + t.Draw(3)
-	for i := 0; i < nproc; i++ {
-		sim.AddProcess(world.Full())
-	}
+	sim.AddProcess(world.Full())
 	sim.At(0)
 	e0 := gen.Build(spec)
+	// "decoded" includes what a process makes of types it does not know
+	var fams []string
+	if m0, p0 := obs.Encode(e0); p0 == "" {
+		fams = familiesOf(m0)
+	}
+	for i := 1; i < nproc; i++ {
+		if t.Bool(1, 3) {
+			sim.AddProcess(drawUnknowing(t, fams))
+		} else {
+			sim.AddProcess(world.Full())
+		}
+	}
+	sim.At(0)
 	res.Desc.Tree = spec.Expr()
 	res.Desc.Cluster = clusterDesc(sim)
 	res.Kinds = kindsOf(spec)
@@ -62,6 +73,7 @@ func (c15) Run(t *tape.Tape, tier Tier) *Result {
 	// the report of a transferred copy (whose stacks are re-parsed from their
 	// printed form) must show the same frames
 	var originFrames []string
+	originTypes := ""
 	// a layer of an application-defined type with StackTrace() loses its
 	// stack on the wire (nothing transfers it): the comparison of local and
 	// transferred frames does not apply to such trees
@@ -150,6 +162,20 @@ func (c15) Run(t *tape.Tape, tier Tier) *Result {
 			}
 			nStacks = len(stacks)
 			module := string(errors.GetDomain(e))
+			// the outermost domain annotation of the single-cause spine, read
+			// from that layer's own details (not through GetDomain)
+			for _, n := range layers {
+				if strings.Trim(n.Path, "c") != "" {
+					break // left the spine
+				}
+				if n.GoType == "*domains.withDomain" {
+					if len(n.Safe) > 0 && n.Safe[0] != module {
+						res.add(Violation{Prop: "C15", Oracle: "module-is-outermost-domain", Culprit: typeOfLayer(n), Expected: n.Safe[0], Observed: module, Where: where})
+					}
+					module = n.Safe[0]
+					break
+				}
+			}
 			if len(stacks) == 0 {
 				if len(ev.Exception) != 1 || ev.Exception[0].Stacktrace != nil {
 					res.add(Violation{Prop: "C15", Oracle: "synthetic-exception", Culprit: typeOfLayer(layers[0]), Expected: "1 exception without stack", Observed: fmt.Sprint(len(ev.Exception)), Where: where})
@@ -208,6 +234,11 @@ func (c15) Run(t *tape.Tape, tier Tier) *Result {
 			sort.Strings(want)
 			gs := append([]string(nil), got...)
 			sort.Strings(gs)
+			if where == "origin (local)" {
+				originTypes = strings.Join(gs, "\n")
+			} else if !rewrapped && originTypes != "" && strings.Join(gs, "\n") != originTypes {
+				res.add(Violation{Prop: "C15", Oracle: "error-types-as-at-origin", Culprit: firstDiffLine(originTypes, strings.Join(gs, "\n")), Expected: short(originTypes), Observed: short(strings.Join(gs, "\n")), Where: where})
+			}
 			if strings.Join(want, "\n") != strings.Join(gs, "\n") {
 				res.add(Violation{Prop: "C15", Oracle: "error-types-line-per-layer", Culprit: typeOfLayer(layers[0]), Expected: short(strings.Join(want, " / ")), Observed: short(strings.Join(gs, " / ")), Where: where})
 			}
